@@ -51,7 +51,7 @@ vpsc.Variable.__init__ = _var_init
 vpsc.Solver.solve = _solve
 ro_mod.removeOverlap = _ro
 
-RO_DEFAULT = ro_mod.DEFAULT_OPTIONS
+RO_DEFAULT = dict(ro_mod.DEFAULT_OPTIONS)     # the documented defaults as they were at import time (a copy: the module's own dict may be altered by a defective implementation)
 
 
 def conv(x, exact):
@@ -168,8 +168,11 @@ def run_force(labels, opts, mode, engine=None, nodes=None, want_layer_lines=True
     fl = force_line(mode, eff, [(n.idealPos, n.width) for n in nodes], layers, gl_ok, ids)
     lls = []
     if want_layer_lines:
+        # every layer must be solved under the options the ENGINE was configured with (all set_options calls accumulated), whatever
+        # the engine passed down to removeOverlap
+        expect = {k: eff[k] for k in ("minPos", "maxPos", "nodeSpacing", "lineSpacing")}
         for r in recs:
-            lls.append(layer_line(mode, r["before"], r["after"], r["targets"], r["options"], r["xs"]))
+            lls.append(layer_line(mode, r["before"], r["after"], r["targets"], expect, r["xs"]))
     return fl, lls, engine, nodes
 
 
